@@ -277,10 +277,15 @@ def multi_case(res, W, rng, tier):
         frames.append((R.CONT, b"end", 1))
     stream = b"".join(R.encode(op, p, fin=fin, key=(rng.randbytes(4) if rng.random() < 0.3 else None)) for op, p, fin in frames)
     stream += R.encode(R.BINARY, SENT)
-    mode = rng.choice(["recv_frame", "recv_data_frame", "recv_data", "recv", "recv_data_frame_cf", "next", "iter"])
+    mode = rng.choice(["recv_frame", "recv_data_frame", "recv_data", "recv", "recv_data_frame_cf", "next", "iter", "mixed", "mixed"])
     cf = mode.endswith("_cf")
     name = mode.replace("_cf", "")
     script = [(name, cf)] * (len(frames) + 2)
+    if mode == "mixed":
+        # one connection read in several message-level styles, call by call (a data-only reader here, a control-frame-aware one
+        # there; recv_frame() is a different layer - it bypasses the reassembly - and is not mixed in)
+        script = [rng.choice([("recv_data_frame", True), ("recv_data_frame", False), ("recv_data", True), ("recv_data", False), ("recv", False), ("next", False)])
+                  for _ in range(len(frames) + 2)]
     cuts = rng.choice([None, random_cuts(rng, len(stream), 3), random_cuts(rng, len(stream), 30)])
     judge(res, W, stream, script, cuts, "eof", {}, ("multi", mode, len(frames)), expect_sentinel=True)
     res.count("multi_mode:" + mode)
